@@ -17,7 +17,7 @@ COMBOS = [
     ('cxxunknown-all', ['-DGLM_FORCE_PLATFORM_UNKNOWN', '-DGLM_FORCE_COMPILER_UNKNOWN', '-DGLM_FORCE_ARCH_UNKNOWN', '-DGLM_FORCE_CXX_UNKNOWN']),
     ('swizzle+explicit+unrestricted', ['-DGLM_FORCE_SWIZZLE', '-DGLM_FORCE_EXPLICIT_CTOR', '-DGLM_FORCE_UNRESTRICTED_GENTYPE']),
 ]
-QUICK = ['cxx98', 'cxx11', 'inline', 'ctor_init', 'xyzw_only', 'wxyz', 'compiler_unknown', 'cxx98+ctor_init+wxyz']
+QUICK = ['cxx98', 'cxx11', 'inline', 'ctor_init', 'xyzw_only', 'wxyz', 'compiler_unknown', 'cxx98+ctor_init+wxyz', 'size_t_length']
 
 
 def SPEC(tier):
@@ -41,6 +41,6 @@ def SPEC(tier):
 META = dict(
     technique='bit-exact differential testing between separately compiled GLM configurations (macro / language level / optimisation level / compiler) over a generated operation table',
     text='The operation table (~3300 instances quick, ~5000 thorough) is compiled once per configuration into its own shared library; identical inputs are run through all of them in one process and every output is '
-         'compared bit for bit against the baseline. Quick: 11 configurations; thorough: 35 (all single macros of the statement, 4 combinations, O0/O2/O3, g++ and clang++).',
+         'compared bit for bit against the baseline. Quick: 12 configurations; thorough: 35 (all single macros of the statement, 4 combinations, O0/O2/O3, g++ and clang++).',
     note='-ffp-contract=off -fno-fast-math are fixed across the matrix (compiler semantics, not GLM settings). Two NaN results are treated as equal whatever their payload.',
     design='6/C15')
